@@ -1,6 +1,8 @@
 /* C20 scenario: aws_thread launch / join / at-exit callbacks / managed threads under the controlled scheduler.
  * Scenario lines:
- *   THREAD <i> <J|M> <op> ...     defines thread i (joinable or managed) and the script its function runs:
+ *   THREAD <i> <J|M>[<cpu>][n] <op> ...   defines thread i (joinable or managed; optionally pinned to cpu <cpu> - one that
+ *                                 does not exist makes the first pthread_create fail and the library retry unpinned -
+ *                                 and/or given a name) and the script its function runs:
  *        A            register one more at-exit callback (numbered 1,2,.. per thread in registration order)
  *        L<j>         launch thread j (must be managed) from inside this thread
  *        P            explicit schedule point
@@ -22,6 +24,8 @@
 struct tdef {
     int id;
     bool managed;
+    int cpu; /* -1 = not pinned */
+    bool named;
     int nops;
     char ops[MAXOPS][8];
     struct aws_thread thread;
@@ -79,6 +83,10 @@ static void launch(int j) {
     struct tdef *d = &T[j];
     struct aws_thread_options opt = *aws_default_thread_options();
     opt.join_strategy = d->managed ? AWS_TJS_MANAGED : AWS_TJS_MANUAL;
+    opt.cpu_id = d->cpu;
+    if (d->named) {
+        opt.name = aws_byte_cursor_from_c_str("verif-thread");
+    }
     aws_thread_init(&d->thread, vh_alloc());
     vh_begin("Launch");
     vh_int("thr", j);
@@ -88,6 +96,7 @@ static void launch(int j) {
     vh_begin("LaunchRet");
     vh_int("thr", j);
     vh_int("rc", rc);
+    vh_int("detach", rc == 0 ? (int)aws_thread_get_detach_state(&d->thread) : -1);
     vh_end();
 }
 
@@ -104,7 +113,10 @@ static void scenario(char **lines, int nlines) {
             struct tdef *d = &T[id];
             d->id = id;
             d->defined = true;
-            d->managed = strcmp(strtok_r(NULL, " ", &save), "M") == 0;
+            const char *kind = strtok_r(NULL, " ", &save);
+            d->managed = kind[0] == 'M';
+            d->cpu = (kind[1] >= '0' && kind[1] <= '9') ? atoi(kind + 1) : -1;
+            d->named = strchr(kind, 'n') != NULL;
             for (char *o = strtok_r(NULL, " ", &save); o && d->nops < MAXOPS; o = strtok_r(NULL, " ", &save)) {
                 strncpy(d->ops[d->nops++], o, 7);
             }
